@@ -83,6 +83,25 @@ def receiver_fields(body, term, depth=24):
     return field_path(arg_term(body, term, 0, depth))
 
 
+def return_locals(body):
+    """`_0` and the locals that are only handed over to it (`_0 = move _k`: the result slot of a spliced helper)"""
+    rets = {0}
+    for _ in range(4):
+        more = set()
+        for b in body.blocks:
+            if b.cleanup:
+                continue
+            for st in b.stmts:
+                if st.kind == "assign" and st.place.local in rets and not st.place.proj and st.rv.kind == "use":
+                    ops = st.rv.operands()
+                    if ops and ops[0].place is not None and not ops[0].place.proj and ops[0].kind == "move" and ops[0].place.local > body.argc:
+                        more.add(ops[0].place.local)
+        if more <= rets:
+            break
+        rets |= more
+    return rets
+
+
 def assigns_of_return(body, variant=None):
     """blocks that assign the return place `_0` (optionally: an aggregate of the given variant); a local that is only ever moved into
     `_0` (the result slot of a helper spliced in by the inliner) counts as the return place"""
